@@ -260,8 +260,18 @@ def check_C10(c):
     reqs = [tok_req(s) for s in strings]
     impl, model = both(reqs, timeout=900)
     c.add_stream(Stream("TOK built-in operator set", reqs, impl, model, numeric=False))
-    def oracle(reqs, impl, label):
+    _t = G.documented_table()
+    BUILTIN_OPS = set(_t.infix) | set(_t.prefix) | set(_t.postfix) | {"?", ":"}
+    def oracle(reqs, impl, label, ops=BUILTIN_OPS):
         for r, a in zip(reqs, impl):
+            if a.startswith("OK\tok"):
+                # an operator token is a *registered* operator (seeded change C10-ascii-punctuation-starts-operator made `_`, `.`,
+                # `@` … one-character operator tokens)
+                f_ = a.split("\t")
+                bad = [unhx(x.split(":")[1]) for x in (f_[2].split() if len(f_) > 2 and f_[2] else []) if x.split(":")[0] == "0" and unhx(x.split(":")[1]) not in ops]
+                if bad:
+                    c.violation("implementation-vs-property", "operator token whose text is not a registered operator (%s): %r" % (label, bad[0]),
+                                {"request": r, "implementation": a, "input_text": unhx(r.split("\t")[1])})
             if a.startswith("OK\t") and not a.startswith("OK\tok"):
                 c.violation("implementation-vs-property", "token spans/text do not tile the input (%s): %s" % (label, a.split("\t")[1]),
                             {"request": r, "implementation": a, "input_text": unhx(r.split("\t")[1])})
@@ -300,7 +310,8 @@ def check_C10(c):
     reqs2 = pre + [tok_req(s) for s in strings2]
     impl2, model2 = both(reqs2, timeout=900)
     c.add_stream(Stream("TOK extended operator set", reqs2, impl2, model2, numeric=False))
-    oracle(reqs2[len(pre):], impl2[len(pre):], "extended set")
+    oracle(reqs2[len(pre):], impl2[len(pre):], "extended set",
+           BUILTIN_OPS | {"**", "~", "=~", "<=>", "hi", "inside", "<~", "<~>", "~=", "is-a", "nil?", "isGreaterThanOrEqualTo", "otherwise", "<=|", "atzero", "~~", "neg", "!!", "percent", "§"})
     # every operator registered above — whatever its kind and precedence — is recognised as one operator token
     ext_ops = [unhx(r.split("\t")[2]) for r in pre]
     probes2 = [tok_req("7 %s 3" % o) for o in ext_ops] + [tok_req("[x %s (y)]" % o) for o in ext_ops]
